@@ -57,7 +57,7 @@ def cmd_explain(args):
     # Load merchant rules
     merchants_file = config.get('_merchants_file')
     try:
-        if merchants_file and os.path.exists(merchants_file):
+        if merchants_file:
             rules = get_all_rules(merchants_file, match_mode=rule_mode)
         else:
             rules = get_all_rules(match_mode=rule_mode)
